@@ -162,7 +162,9 @@ class Evaluator:
         self.has_pseudo = len(gene.regions) > 1
         self.configs = {}
         for n, c in configs.items():
-            if (not fusion_support or n == "1" or (self.dele and n == self.dele)
+            # long-read support values speak about fusions: a fusion without (enough) support is not
+            # admissible; every other configuration (default, whole-gene deletion, partial deletion) is
+            if (not fusion_support or c.kind not in (self.T.LEFT_FUSION, self.T.RIGHT_FUSION)
                     or (n in fusion_support and fusion_support[n] >= 1 / (2 * max_cn))):
                 self.configs[n] = c
         self.regions = [r for r in region_cov if r in gene.unique_regions]
